@@ -115,11 +115,17 @@ def run_case(ctx, case):
 
     with core.time_limit(290):
         # ---- expression selections
+        contents_ = [e for e in exprs if e[4].get("contents")]
         for _ in range(8):
             if not exprs:
                 break
-            l, c, el, ec, info = exprs[picks.pop() % len(exprs)]
+            pool_ = exprs
+            if _ < 2 and contents_:
+                pool_ = contents_      # two of the eight picks go to the contents of bracketed displays when there are any
+            l, c, el, ec, info = pool_[picks.pop() % len(pool_)]
             sel = "aligned-expr:" + ("value" if info["value"] else "non-value") + ("+binder" if info["binder"] else "") + ("+kwcall" if info["kwcall"] else "")
+            if info.get("contents"):
+                sel = "display-contents:" + ("elements" if info["pure_once"] else "other")
             src_text = text.split("\n")[l - 1][c:ec] if l == el else "<multi-line>"
             newv = judge("extract_variable", sel, lambda s: s.extract_variable(l, c, new_name=NEW, until_line=el, until_column=ec),
                          info["pure_once"], "(%d,%d)-(%d,%d) %r" % (l, c, el, ec, src_text[:40]))
